@@ -13,7 +13,15 @@ import (
 // miss-fetches cancelled while a given source is being fetched, TTL and
 // refresh-interval clock jumps, enough distinct misses to cross the merge
 // threshold.
-func runC06(r *simkit.Run, c Cfg) {
+func runC06(r *simkit.Run, c Cfg) { runC06Mode(r, c, false) }
+
+// C06H: the same histories with the library's own HTTP source between the
+// cache and the gated sources: real requests, JSON and status handling, and
+// endpoint faults (error statuses, resets, cut and empty bodies, a stall that
+// runs into the client's time-out) instead of stub errors.
+func runC06H(r *simkit.Run, c Cfg) { runC06Mode(r, c, true) }
+
+func runC06Mode(r *simkit.Run, c Cfg, overHTTP bool) {
 	tp := r.Tape
 	nsrc := tp.Range(1, 3, "nsrc")
 	ttl := time.Duration(tp.Range(2, 30, "ttl")) * time.Second
@@ -21,7 +29,7 @@ func runC06(r *simkit.Run, c Cfg) {
 	if tp.Chance(1, 3, "autorefresh") {
 		refreshIn = time.Duration(tp.Range(1, 20, "refreshIn")) * time.Second
 	}
-	d := pcSetup(r, nsrc, ttl, refreshIn, false, nil)
+	d := pcSetupMode(r, nsrc, ttl, refreshIn, false, overHTTP, nil)
 	d.mode = "c06"
 	d.failNum, d.failDen = 0, 8
 	if tp.Chance(1, 2, "faulty") {
@@ -98,5 +106,6 @@ func runC07(r *simkit.Run, c Cfg) {
 
 func init() {
 	Register(&Scenario{Name: "C06", Property: "C06", Run: runC06})
+	Register(&Scenario{Name: "C06H", Property: "C06", Run: runC06H})
 	Register(&Scenario{Name: "C07", Property: "C07", Run: runC07})
 }
